@@ -26,6 +26,7 @@ class Org(models.Model):
 class Author(models.Model):
     name = models.TextField(null=True)
     age = models.IntegerField(null=True)
+    rank = models.IntegerField(default=1)
     org = models.ForeignKey(Org, null=True, on_delete=models.CASCADE, related_name="authors")
 
     class Meta:
@@ -36,7 +37,7 @@ class Post(models.Model):
     title = models.TextField(null=True)
     n = models.IntegerField(null=True)
     author = models.ForeignKey(Author, null=True, on_delete=models.CASCADE, related_name="posts")
-    editors = models.ManyToManyField(Author, related_name="edited")
+    authors = models.ManyToManyField(Author, related_name="edited")  # the editors; shares its name with Org.authors
 
     class Meta:
         app_label = "djapp"
